@@ -43,6 +43,51 @@ pub(crate) fn any_tinylfu(row_bytes: usize, dk_exp: u64) -> TinyLFU {
     }
 }
 
+/// Uninterpreted-function stand-in for `TinyLFU::estimate` (Kani only): an arbitrary but fixed
+/// popularity in [0, 16] per key, set by the harness. Used by the `add` harnesses whose subject
+/// is the admission/eviction RULE (stated in terms of the estimator's values; `add` does not
+/// modify the estimator); the estimator itself is decided by the C13 harnesses.
+#[cfg(kani)]
+pub(crate) mod estuf {
+    pub static mut KEYS: [u64; 4] = [0; 4];
+    pub static mut VALS: [i64; 4] = [0; 4];
+    pub static mut N: usize = 0;
+    pub static mut CALLS: usize = 0;
+    pub fn set(i: usize, k: u64, v: i64) {
+        unsafe {
+            KEYS[i] = k;
+            VALS[i] = v;
+            if i + 1 > N {
+                N = i + 1;
+            }
+        }
+    }
+    pub fn reset() {
+        unsafe {
+            N = 0;
+            CALLS = 0;
+        }
+    }
+    pub fn get(k: u64) -> i64 {
+        unsafe {
+            let mut i = 0;
+            while i < 4 {
+                if i < N && KEYS[i] == k {
+                    return VALS[i];
+                }
+                i += 1;
+            }
+            0
+        }
+    }
+    pub fn estimate(_t: &super::TinyLFU, kh: u64) -> i64 {
+        unsafe {
+            CALLS += 1;
+        }
+        get(kh)
+    }
+}
+
 fn tinylfu_step(row_bytes: usize, dk_exp: u64) {
     let mut t = any_tinylfu(row_bytes, dk_exp);
     let k = nd::any_u64();
